@@ -45,6 +45,8 @@ def main(argv=None) -> int:
         cap = a.cap
         if cap is None:
             cap = getattr(mod, 'CAPS', {}).get(a.tier)
+        if cap is None and a.tier == 'quick':
+            cap = 1200.0  # safety net only: quick tiers take < 1 min on the unchanged tree; a hit is reported
         return core.run_check(mod, a.tier, seed, a.jobs, cap_s=cap)
     except core.HarnessError as e:
         print(f'HARNESS-ERROR {a.id}: {e}', file=sys.stderr)
